@@ -153,7 +153,8 @@ func init() {
 	})
 	register(Check{
 		ID: "C02", Title: "Accepted programs never go wrong (type soundness)", Level: "model_checking",
-		Units: []Unit{evalUnit([]string{"evaluator/common.go", "evaluator/c02.go"},
+		Units: []Unit{evalUnit([]string{"evaluator/common.go", "evaluator/c02.go", "evaluator/c04.go", "evaluator/c08.go", "evaluator/c09.go"},
+			Harness{Fn: "ZZC02Audit", Expect: []string{"audit-ok", "witness:end"}},
 			Harness{Fn: "ZZC02Builtins", Expect: []string{"builtin-rand", "builtin-print", "builtin-font", "builtin-poly", "witness:end"}, MaxInstr: 5_000_000},
 			Harness{Fn: "ZZC02Primitives", Expect: []string{"repeat", "concat", "fromany", "zero", "witness:end"}},
 			Harness{Fn: "ZZC02Programs", Expect: []string{"program-ok", "witness:end"}},
